@@ -60,6 +60,8 @@ def _worker(pid, task):
     faulthandler.dump_traceback_later(TASK_TIMEOUT_S, exit=True)
     try:
         mod = prop_module(pid)
+        from . import pipeline
+        pipeline.HANGS["active"] = True
         part = mod.run_task(task)
         return ("ok", part)
     except BaseException:
